@@ -181,3 +181,20 @@ pub fn input_channel() -> (
 ) {
     crate::create_input_channel()
 }
+
+/// Runs the replica exactly as `Config::run_v2` does — `StateMachine::start` followed by `StateMachine::run` (the
+/// message loop: view-0 bootstrap, `recv` with the view deadline, dispatch, ack, timer expiry) — but without the
+/// proposer task: `proposer_sender` is the watch through which the loop hands justifications to the proposer (the
+/// caller keeps a receiver, otherwise `start_new_view` panics on `send`).
+pub async fn run_replica(
+    ctx: &ctx::Ctx,
+    config: Config,
+    outbound: ctx::channel::UnboundedSender<ToNetworkMessage>,
+    inbound: sync::prunable_mpsc::Receiver<FromNetworkMessage>,
+    proposer_sender: sync::watch::Sender<Option<validator::v2::ProposalJustification>>,
+) -> ctx::Result<()> {
+    v2_chonky_bft::StateMachine::start(ctx, Arc::new(config), outbound, inbound, proposer_sender)
+        .await?
+        .run(ctx)
+        .await
+}
